@@ -1,4 +1,3 @@
-// Package c15: correspondence ops for C15 (stub, not yet built).
 package c15
 
 import (
@@ -8,4 +7,6 @@ import (
 
 func init() { registry.Register("C15", Ops) }
 
-func Ops() []*core.Op { return nil }
+func Ops() []*core.Op {
+	return []*core.Op{hashOp(), driftOp(), selfOp()}
+}
